@@ -755,7 +755,7 @@ func stages(api, q, vars, op string, world, weirdErr int, fo *frontObs) sexp.Nod
 var expectRefused bool
 
 const frontMaxBytes = 1500
-const frontMaxBytesDeep = 6000
+const frontMaxBytesDeep = 4200
 
 var hostileVS *sexp.Node
 
